@@ -260,6 +260,8 @@ pub struct C13 {
     pub quiescent_compared: u64,
     visit_peer: Option<String>,
     fold_stream: Option<String>,
+    /// route scripts: the fold body calls `<value>.peer ("s" "route...") [value]`, the visit is that call
+    route_fn: Option<String>,
     merged: HashSet<Vec<BlobId>>,
 }
 
@@ -304,7 +306,82 @@ impl C13 {
         if !has_next {
             visit_peer = None;
         }
-        C13 { cc: CanonCtx::new(ast), observations: 0, multi: 0, both_ways: 0, quiescent_compared: 0, visit_peer, fold_stream, merged: HashSet::new() }
+        let mut route_fn = None;
+        script::walk(ast, &mut |x| {
+            if let I::Fold { iterable: Arg::Stream(_), body, .. } = x {
+                script::walk(body, &mut |y| {
+                    if let I::Call { peer: script::PeerRef::Lens(_, l), func, .. } = y {
+                        if func.starts_with("route") && l == ".peer" {
+                            route_fn = Some(func.clone());
+                        }
+                    }
+                });
+            }
+        });
+        C13 { cc: CanonCtx::new(ast), observations: 0, multi: 0, both_ways: 0, quiescent_compared: 0, visit_peer, fold_stream, route_fn, merged: HashSet::new() }
+    }
+}
+
+impl C13 {
+    /// Route scripts: every value of the stream that is not marked done is visited (its hop call issued) exactly
+    /// once, at the peer it names.
+    fn route_state(&mut self, cx: &mut Cx, st: &State, info: &StateInfo, rf: &str) -> Vec<Viol> {
+        let mut out = vec![];
+        // (peer index, argument text) -> times issued
+        let mut visited: BTreeMap<(usize, String), u32> = BTreeMap::new();
+        for ((p, rq), n) in st.ghosts.issued.iter() {
+            let r = &cx.reqs[*rq as usize];
+            if r.function == rf {
+                if let Some(a) = r.args.first() {
+                    *visited.entry((*p as usize, a.clone())).or_insert(0) += n;
+                }
+            }
+        }
+        for ((p, v), n) in &visited {
+            if *n > 1 {
+                out.push(viol("C13/value-visited-more-than-once", format!("peer {} issued the hop call for {v} {n} times", cx.world.peers[*p].name)));
+            }
+        }
+        if !info.quiescent || !self.merged.insert(st.prev.clone()) {
+            return out;
+        }
+        let obs = cx.world.nact;
+        if obs >= cx.world.peers.len() {
+            return out;
+        }
+        let mut acc: Vec<u8> = vec![];
+        for b in &st.prev {
+            let cur = cx.bytes(*b).to_vec();
+            match cx.run_bytes(obs, &acc, &cur, &Default::default()) {
+                Ok(o) if o.ret_code == 0 => acc = o.data,
+                _ => return out,
+            }
+        }
+        let Ok(d) = crate::data::decode(&acc) else { return out };
+        self.quiescent_compared += 1;
+        let mut nvalues = 0;
+        for e in &d.trace {
+            if let Ent::Call(CallSt::Exec { kind: 't', cid, .. }) = e {
+                let Some(text) = d.srv(cid).and_then(|a| a.value) else { continue };
+                let Ok(v) = serde_json::from_str::<Value>(&text) else { continue };
+                if v["f"].as_str() != Some(rf) {
+                    continue;
+                }
+                nvalues += 1;
+                if v["done"].as_bool() == Some(true) {
+                    continue;
+                }
+                let Some(pi) = v["peer"].as_str().and_then(|id| cx.world.peer_idx_by_id(id)) else { continue };
+                let key = (pi, crate::host::canon_json_text(&v));
+                if !visited.contains_key(&key) {
+                    out.push(viol(
+                        "C13/value-never-visited",
+                        format!("after everything was delivered the merged stream holds {} route values; the value {} (hop {} of the route) was never visited: peer {} never issued its hop call, the fold stopped there", nvalues, key.1, v["n"], cx.world.peers[pi].name),
+                    ));
+                }
+            }
+        }
+        out
     }
 }
 
@@ -327,6 +404,9 @@ impl Monitor for C13 {
     }
     fn on_state(&mut self, cx: &mut Cx, st: &State, info: &StateInfo) -> Vec<Viol> {
         let mut out = vec![];
+        if let Some(rf) = self.route_fn.clone() {
+            return self.route_state(cx, st, info, &rf);
+        }
         let (Some(vp), Some(fs)) = (self.visit_peer.clone(), self.fold_stream.clone()) else { return out };
         // visits: at most once per value and peer, in every state
         let pidx = cx.world.peers.iter().position(|p| p.name == vp).unwrap_or(0);
